@@ -22,12 +22,12 @@ class CoqError(Exception):
         self.log = log
 
 
-def ensure_built(jobs=16, timeout=3000):
-    """`make` in coq/ under a lock. Returns (ok, log)."""
+def ensure_built(jobs=16, timeout=1800, targets=()):
+    """`make [targets]` in coq/ under a lock (all files when no target is given). Returns (ok, log)."""
     lock = open(os.path.join(COQDIR, ".build.lock"), "w")
     fcntl.flock(lock, fcntl.LOCK_EX)
     try:
-        r = subprocess.run(["bash", os.path.join(COQDIR, "build.sh"), str(jobs)],
+        r = subprocess.run(["bash", os.path.join(COQDIR, "build.sh"), str(jobs)] + list(targets),
                            capture_output=True, text=True, timeout=timeout)
         return r.returncode == 0, (r.stdout + r.stderr)[-6000:]
     finally:
